@@ -86,10 +86,14 @@ func (r *Report) add(st Status, construct, pos, detail string, trivial bool) *Ob
 	return o
 }
 
-func (r *Report) OK(construct, pos, detail string)      { r.add(Discharged, construct, pos, detail, false) }
-func (r *Report) Trivial(construct, pos, detail string) { r.add(Discharged, construct, pos, detail, true) }
-func (r *Report) Fail(construct, pos, detail string)    { r.add(Violated, construct, pos, detail, false) }
-func (r *Report) Unknown(construct, pos, detail string) { r.add(Undecided, construct, pos, detail, false) }
+func (r *Report) OK(construct, pos, detail string) { r.add(Discharged, construct, pos, detail, false) }
+func (r *Report) Trivial(construct, pos, detail string) {
+	r.add(Discharged, construct, pos, detail, true)
+}
+func (r *Report) Fail(construct, pos, detail string) { r.add(Violated, construct, pos, detail, false) }
+func (r *Report) Unknown(construct, pos, detail string) {
+	r.add(Undecided, construct, pos, detail, false)
+}
 
 // Check records discharged/violated depending on ok.
 func (r *Report) Check(ok bool, construct, pos, okDetail, failDetail string) bool {
@@ -214,14 +218,14 @@ func (r *Report) Finish(verifDir string, known *KnownFile) int {
 		rules = append(rules, fmt.Sprintf("%s (%d instances, floor %d): %s", id, count[id], r.Floors[id], r.RuleTexts[id]))
 	}
 	cov := map[string]any{
-		"explanation": "Static analysis of /repo's current working tree (AST + go/types, own CFG with labelled edges, must-fact dataflow, call graph with field-sensitive function values, effect summaries). Each obligation is one rule instance (rule id + construct) decided on this run; a violated or undecided obligation, an unresolved anchor, a type-check error or a rule matching fewer instances than its floor fails the check. Rules: " + strings.Join(rules, " | "),
-		"obligations":         len(r.Obls),
-		"discharged":          discharged,
-		"evaluations":         len(r.Obls),
-		"distinct_nontrivial": len(nontrivial),
-		"rule":                "one case = one (rule, construct) instance found on the tree by resolved objects; trivial = discharged without analysis (e.g. nil-literal argument); distinct = distinct rule|construct keys",
-		"samples":             samples,
-		"exhaustive":          false,
+		"explanation":            "Static analysis of /repo's current working tree (AST + go/types, own CFG with labelled edges, must-fact dataflow, call graph with field-sensitive function values, effect summaries). Each obligation is one rule instance (rule id + construct) decided on this run; a violated or undecided obligation, an unresolved anchor, a type-check error or a rule matching fewer instances than its floor fails the check. Rules: " + strings.Join(rules, " | "),
+		"obligations":            len(r.Obls),
+		"discharged":             discharged,
+		"evaluations":            len(r.Obls),
+		"distinct_nontrivial":    len(nontrivial),
+		"rule":                   "one case = one (rule, construct) instance found on the tree by resolved objects; trivial = discharged without analysis (e.g. nil-literal argument); distinct = distinct rule|construct keys",
+		"samples":                samples,
+		"exhaustive":             false,
 		"known_findings_matched": len(knownLines),
 		"stale_known_findings":   stale,
 		"exceptions_applied":     r.Exceptions,
